@@ -8,4 +8,6 @@ WORK="${VERIF_WORK:-$ROOT/.work}"
 mkdir -p "$WORK/bin" evidence replays
 go build -o "$WORK/bin/vinstr" ./cmd/vinstr
 ./check --build
+# the runtime's channel / select / atomic models must behave before any verdict is believed
+"$WORK/bin/vcheck" aux selftest >"$WORK/selftest.log" 2>&1 || { cat "$WORK/selftest.log"; echo "HARNESS-ERROR runtime selftest failed"; exit 3; }
 echo "setup ok"
